@@ -51,6 +51,8 @@ def run(repo, rep):
     rule_state(repo, rep)
     rule_random(repo, rep)
     rule_order(repo, rep)
+    rep.clause("C14-g", "no ambient input: the clock is only printed, file-system state beyond the named inputs only guards errors")
+    rule_ambient_inputs(repo, rep)
     rule_singletons(repo, rep)
     rule_shared_tables(repo, rep)
     rule_interpreter_settings(repo, rep)
@@ -350,7 +352,7 @@ def rule_random(repo, rep):
 def rule_order(repo, rep):
     n = 0
     for mname in ("tflite_writer", "npu_serialisation", "tensor_allocation", "live_range", "extract_npu_subgraphs", "pass_packing", "high_level_command_stream_generator", "greedy_allocation",
-                  "vela", "architecture_features", "compiler_driver", "model_reader", "scheduler", "cascade_builder"):
+                  "vela", "architecture_features", "compiler_driver", "model_reader", "scheduler", "cascade_builder", "hillclimb_allocation"):
         m = repo.mod(mname)
         for q, fn in m.functions.items():
             sets = set()
@@ -650,3 +652,84 @@ def rule_interpreter_settings(repo, rep):
     if n < 2:
         raise AnalysisError(f"sys.setrecursionlimit calls in vela.py: {n}")
     rep.floor("C14-f", 5)
+
+
+_CLOCKS = ("time.time", "time.monotonic", "time.perf_counter", "time.process_time", "time.time_ns", "time.monotonic_ns", "datetime.now", "datetime.datetime.now", "datetime.utcnow", "datetime.datetime.utcnow")
+_FILE_STATE = ("os.path.getmtime", "os.path.getctime", "os.path.getatime", "os.path.getsize", "os.path.isfile", "os.path.exists", "os.path.isdir", "os.stat", "os.listdir", "glob.glob", "os.scandir")
+
+
+_FILE_STATE_EXEMPT = {
+    ("vela", "list_config_files"): "implements --list-config-files: prints the bundled configuration files and exits, nothing is compiled",
+}
+
+
+def rule_ambient_inputs(repo, rep):
+    """(g) the compilation result depends on the model, the options and the configuration files only. Two ambient inputs are excluded
+    structurally: (1) the clock - a time source may be read only into a local that is used for printing elapsed times (never in a
+    condition, a bound or an argument of the compiler proper): a search that stops on a deadline gives a host-speed dependent plan;
+    (2) the state of the file system beyond the named inputs - existence / time-stamp tests may only guard an error (`raise`), never a
+    short cut that returns or skips work: an output left by an earlier compilation must not decide what is returned."""
+    n = 0
+    for m in repo.core_modules():
+        for q, fn in m.functions.items():
+            site = f"ethosu/vela/{m.name}.py:{q}"
+            clock_names = set()
+            for c in walk_no_nested(fn):
+                if isinstance(c, ast.Call) and call_name(c) in _CLOCKS:
+                    n += 1
+                    par = m.parents.get(c)
+                    if isinstance(par, ast.Assign) and len(par.targets) == 1 and isinstance(par.targets[0], ast.Name) and par.value is c:
+                        clock_names.add(par.targets[0].id)
+                    else:
+                        rep.bad("C14-g", site, "a clock is read only into a local used for reporting", f"`{str(norm(par))[:80]}` uses the clock value directly: the result depends on the speed and load of the host")
+            for nm in clock_names:
+                for x in walk_no_nested(fn):
+                    if isinstance(x, ast.Name) and x.id == nm and isinstance(x.ctx, ast.Load):
+                        cur = m.parents.get(x)
+                        ok = False
+                        while cur is not None and cur is not fn:
+                            if isinstance(cur, ast.Call) and call_name(cur) in ("print", "round", "format"):
+                                ok = True
+                                break
+                            if isinstance(cur, (ast.If, ast.While, ast.IfExp, ast.Compare, ast.Return)) or (isinstance(cur, ast.Call) and call_name(cur) not in ("print", "round", "format", "str", "int", "float")):
+                                break
+                            if isinstance(cur, ast.Assign):
+                                # elapsed = stop - start: follow the new name one level
+                                tgt = cur.targets[0].id if isinstance(cur.targets[0], ast.Name) else None
+                                uses = [y for y in walk_no_nested(fn) if isinstance(y, ast.Name) and y.id == tgt and isinstance(y.ctx, ast.Load)]
+                                ok = bool(tgt) and all(any(isinstance(a_, ast.Call) and call_name(a_) == "print" for a_ in _ancestors(m, y, fn)) for y in uses)
+                                break
+                            cur = m.parents.get(cur)
+                        rep.check(ok, "C14-g", site, f"clock value `{nm}` is only printed", f"`{str(norm(m_parent_stmt_(m, x)))[:80]}`: the clock takes part in the compilation (a deadline, a bound): host-speed dependent result")
+            for c in walk_no_nested(fn):
+                if isinstance(c, ast.Call) and call_name(c) in _FILE_STATE:
+                    n += 1
+                    if (m.name, q) in _FILE_STATE_EXEMPT:
+                        rep.ok("C14-g", site, f"`{str(norm(c))[:60]}`", "reviewed: " + _FILE_STATE_EXEMPT[(m.name, q)])
+                        continue
+                    cur = m.parents.get(c)
+                    guard = None
+                    while cur is not None and cur is not fn:
+                        if isinstance(cur, (ast.If, ast.While)) and any(c is y for y in ast.walk(cur.test)):
+                            guard = cur
+                            break
+                        cur = m.parents.get(cur)
+                    ok = guard is not None and isinstance(guard, ast.If) and any(isinstance(y, ast.Raise) for y in guard.body) and not any(isinstance(y, (ast.Return, ast.Continue, ast.Break)) for y in ast.walk(guard))
+                    rep.check(ok, "C14-g", site, f"`{str(norm(c))[:60]}` only guards an error", f"`{str(norm(guard.test))[:80] if guard is not None else str(norm(c))[:60]}` decides what the compiler does or returns from the state of the file system "
+                              "(an output file left by an earlier compilation is returned instead of compiling)")
+    if n < 4:
+        raise AnalysisError(f"clock / file-state reads: {n} found")
+
+
+def _ancestors(m, node, fn):
+    cur = m.parents.get(node)
+    while cur is not None and cur is not fn:
+        yield cur
+        cur = m.parents.get(cur)
+
+
+def m_parent_stmt_(m, node):
+    cur = node
+    while cur is not None and not isinstance(cur, ast.stmt):
+        cur = m.parents.get(cur)
+    return cur if cur is not None else node
